@@ -269,7 +269,8 @@ example :
 /-- `C12_repeat`.  On a handler in any reachable state (`Wf`: holds for a new handler and is kept by every
 draw), drawing an image and then drawing it again emits the same bytes, whatever a fresh encoding would
 give the second time (`enc₂`: a new `HashMap` may iterate differently) — provided the bytes fit the cache
-(`IMAGE_CACHE_SIZE` = 128 MiB; a larger encoding is evicted at once and re-encoded). -/
+(`imageCacheSize` = the regenerated `IMAGE_CACHE_SIZE`, see `C12_cache_size`; a larger encoding is evicted
+at once and re-encoded). -/
 theorem C12_repeat (hd : Handler) (key : Nat) (enc₁ enc₂ : List UInt8) (hwf : Wf hd)
     (hfit : (hd.draw key enc₁).1.length ≤ imageCacheSize) :
     ((hd.draw key enc₁).2.draw key enc₂).1 = (hd.draw key enc₁).1 := by
@@ -286,6 +287,32 @@ theorem C12_repeat_reachable :
 /-- a first draw on a new handler (a miss) followed by a second one: hypotheses met -/
 example : Wf Handler.new ∧ ((Handler.new.draw 7 [1, 2, 3]).1.length ≤ imageCacheSize) := by
   refine ⟨wf_new, ?_⟩
-  simp [Handler.draw, Handler.new, imageCacheSize]
+  simp [Handler.draw, Handler.new, imageCacheSize, SurfModel.Generated.SixelCache.imageCacheSize]
+
+/-- The budget against which all of this is stated is the constant of the current build of /repo
+(`SurfModel.Generated.SixelCache`, regenerated through the hook `image::verif_c12` on every run), and it
+is 128 MiB. -/
+theorem C12_cache_size : imageCacheSize = 134217728 := by decide
+
+/-- `C12_repeat_session`.  A whole session on one handler: draw an image, then draw any sequence `ops` of
+images (hits or misses, `total ops` = the sum of the lengths of their encodings), then draw the first
+image again.  As long as what the handler held before plus everything encoded in the session stays within
+the budget, the last draw emits exactly the bytes of the first, whatever a fresh encoding would give. -/
+theorem C12_repeat_session (hd : Handler) (key : Nat) (enc₁ enc₂ : List UInt8)
+    (ops : List (Nat × List UInt8))
+    (hbudget : hd.size + enc₁.length + total ops ≤ imageCacheSize) :
+    ((drawAll (hd.draw key enc₁).2 ops).draw key enc₂).1 = (hd.draw key enc₁).1 := by
+  have h1 := lookup_after_draw_budget hd key enc₁ (by omega)
+  have h2 := (draw_keeps hd key enc₁ (by omega)).1
+  have h3 := drawAll_keeps ops (hd.draw key enc₁).2 (by omega) key _ h1
+  generalize hd.draw key enc₁ = res at h3 ⊢
+  unfold Handler.draw
+  simp [h3]
+
+/-- a session of three other images between the two draws, on a new handler: hypothesis met -/
+example :
+    Handler.new.size + ([1, 2, 3] : List UInt8).length
+      + total [(8, [4, 5]), (9, [6]), (8, [7, 7, 7])] ≤ imageCacheSize := by
+  simp [Handler.new, total, imageCacheSize, SurfModel.Generated.SixelCache.imageCacheSize]
 
 end SurfProofs.C12
